@@ -1,7 +1,7 @@
 use crate::writers::file_log_writer::InfixFilter;
 use crate::{DeferredNow, FlexiLoggerError};
 use std::{
-    ffi::{OsStr, OsString},
+    ffi::OsStr,
     ops::Add,
     path::{Path, PathBuf},
 };
@@ -292,18 +292,6 @@ impl FileSpec {
             .into_iter()
             .chain(compressed_files)
             .filter(|pb| {
-                // ignore .gz suffix
-                let mut pb2 = PathBuf::from(pb);
-                if pb2.extension() == Some(OsString::from("gz").as_ref()) {
-                    pb2.set_extension("");
-                }
-                // suffix must match the given suffix, if one is given
-                match self.o_suffix {
-                    Some(ref sfx) => pb2.extension() == Some(OsString::from(sfx).as_ref()),
-                    None => true,
-                }
-            })
-            .filter(|pb| {
                 pb.file_name()
                     .unwrap()
                     .to_string_lossy()
@@ -313,10 +301,9 @@ impl FileSpec {
 
         let new_path = self.as_pathbuf(Some(infix));
         let new_path_with_gz = {
-            let mut new_path_with_gz = new_path.clone();
-            new_path_with_gz
-                .set_extension([self.o_suffix.as_deref().unwrap_or(""), ".gz"].concat());
-            new_path_with_gz
+            let mut new_path_with_gz = new_path.clone().into_os_string();
+            new_path_with_gz.push(".gz");
+            PathBuf::from(new_path_with_gz)
         };
 
         // if collision would occur (new_path or compressed new_path exists already),
